@@ -99,6 +99,7 @@ def judge_state(start_s, s, root):
 
 
 def bfs(acc, text, depth, cap):
+    RW.reset_configs()  # rule-object state may depend only on this seed's history
     try:
         root = RW.parse(text)
     except Exception:  # noqa
@@ -213,6 +214,24 @@ def run(tier, seed):
 
 
 def replay(case):
+    """direct replay of the recorded trace; a violation that depends on state rule objects carried over from the
+    exploration of the same seed is reproduced by re-running that seed's search from fresh rule objects"""
+    want = case.get("_core")
+    try:
+        got = _replay_direct(case)
+    except Exception:  # noqa
+        got = []
+    if got and (want is None or any(c == want for c, _ in got)):
+        return got
+    a = Acc()
+    bfs(a, case["text"], max(1, len(case["trace"])), 30000)
+    again = [(c, e["examples"][0]["detail"]) for c, e in a.viol.items()]
+    if want is not None and any(c == want for c, _ in again):
+        return [(c, d) for c, d in again if c == want]
+    return again or got
+
+
+def _replay_direct(case):
     text, trace = case["text"], case["trace"]
     if case.get("mode") == "isolation":
         a = Acc()
